@@ -108,7 +108,12 @@ class TreeGen:
         chk = r.random() < 0.4
         if chk:
             self.kinds.add("checkstopmax")
-        return ("for", r.choice(vars_), r.randint(1, 3), self.stmts(depth + 1, vars_, True), iname, chk, r.random() < 0.5)
+        body = self.stmts(depth + 1, vars_, True)
+        brk = None
+        if r.random() < 0.35:
+            self.kinds.add("breakif-in-for")
+            brk = (r.randint(0, len(body)), self.cond(vars_))
+        return ("for", r.choice(vars_), r.randint(1, 3), body, iname, chk, r.random() < 0.5, brk)
 
     def program(self):
         return self.stmts(0, list(self.VARS))
@@ -177,19 +182,30 @@ def render(tree, api):
                 if api:
                     emit(ind, "_endwhile(ctx=_)")
             elif k == "for":
-                _, sv, mx, body, iv, chk, use_i = st
+                _, sv, mx, body, iv, chk, use_i, fbrk = st
                 if api:
                     emit(ind, "for %s in _range(_.%s, max=%d, ctx=_%s):" % (iv, sv, mx, ", checkstopmax=True" if chk else ""))
                 else:
                     emit(ind, "if %s < 0: NEG.append(%s)" % (sv, sv))
-                    if chk:
-                        emit(ind, "if %s > %d: raise TwinMustRaise('stop exceeds max')" % (sv, mx))
+                    emit(ind, "_n%s, _brk%s = %s, False" % (iv, iv, sv))
                     emit(ind, "for %s in range(min(%s, %d)):" % (iv, sv, mx))
                 if use_i:
                     emit(ind + 1, "%s = %s + %s" % (("_.%s" % sv) if False else (("_.a" if api else "a")), ("_.a" if api else "a"), iv))
-                block(body, ind + 1)
+                for i, b in enumerate(body + [None]):
+                    if fbrk is not None and fbrk[0] == i:
+                        if api:
+                            emit(ind + 1, "_breakif(%s, ctx=_)" % ex(fbrk[1]))
+                        else:
+                            emit(ind + 1, "if %s:" % ex(fbrk[1]))
+                            emit(ind + 2, "_brk%s = True" % iv)
+                            emit(ind + 2, "break")
+                    if b is not None:
+                        block([b], ind + 1)
                 if api:
                     emit(ind, "_endfor(ctx=_)")
+                elif chk:
+                    # the maximum cut the loop short only if it neither finished nor was broken out of
+                    emit(ind, "if _n%s > %d and not _brk%s: raise TwinMustRaise('stop exceeds max')" % (iv, mx, iv))
 
     block(tree, 0)
     return lines
